@@ -80,12 +80,13 @@ def gen_case(rng, tier):
         case.update(kind='corrupt', how=kind, text=t2)
     elif r < 0.85:
         fault = rng.choice(['unresolved-data', 'unresolved-operand', 'unresolved-fill', 'unknown-mnemonic', 'no-variant', 'unfit',
-                            'unfit', 'unfit-subbyte', 'bad-expression'])
+                            'unfit', 'unfit-subbyte', 'unfit-subbyte', 'bad-expression'])
         ins = {'unresolved-data': '.2byte nosuchlabel + 1', 'unresolved-operand': 'op2 nosuchlabel', 'unresolved-fill': '.fill nosuch, 1',
                'unknown-mnemonic': rng.choice(['frob 1', 'nopx', 'op9 1, 2']), 'no-variant': rng.choice(['op1', 'nop 5', 'op3 1', 'op2 [5]', 'op1 ra']),
                'unfit': rng.choice(['op1 256', 'op1 -129', 'op2 65536', 'op4 $1000000', 'op3 300, 1']),
                # an 8-bit unaligned immediate behind a 4-bit opcode (12-bit instruction), also as the second step of a macro
-               'unfit-subbyte': rng.choice(['ldn 256', 'ldn -129', 'ldn2 255', 'ld4 16', 'ld4 -9', 'ld4 200', 'ld4 $FF']),
+               'unfit-subbyte': rng.choice(['ldn 256', 'ldn -129', 'ldn2 255', 'ld4 16', 'ld4 -9', 'ld4 200', 'ld4 $FF',
+                                            'ld4 -%d' % rng.randint(9, 15), 'ld4 0 - %d' % rng.randint(9, 15), 'ld4 -16', 'ld4 -17']),
                # text that is no expression where a value is expected
                'bad-expression': rng.choice(['op1 1 +! 2', 'op2 3 -? 4', 'op1 2 *~ 1', 'op3 1 +` 1, 2', 'op1 1 +! 2', '.byte 1 ! 2',
                                              '.2byte 5 }', '.byte 1 +', 'op1 (1', '.fill 2 ! 3, 1'])}[fault]
